@@ -60,12 +60,31 @@ def run_case(case):
         st["armed"] = reentrant is not None and step in reentrant and op[0] == "Probe"
         out = "Ok"
         try:
-            if op[0] == "Reg":
+            if op[0] in ("Reg", "RegLazy"):
+                if op[0] == "RegLazy":
+                    # the container link has a _name_default with content: the legacy registration reads it
+                    o, f, items = op[1:4]
+                    name = base.FN[f]
+                    obj = w.pool[o]
+                    if f == 3:
+                        base.LAZY[(id(obj), name)] = [w.pool[a] for a in items]
+                    elif f == 4:
+                        base.LAZY[(id(obj), name)] = {key: w.pool[a] for key, a in items}
+                    else:
+                        base.LAZY[(id(obj), name)] = {w.pool[a] for a in items}
+                    w.pending = w.next
+                    w.pending_field = f + 3
+                    w.next += 1
                 root.on_trait_change(legacy, case["legacy"], deferred=deferred)
                 if reentrant is not None:
                     root.on_trait_change(watcher.second, case["legacy"], deferred=deferred)
                     st["reg2"] = True
                 root.observe(obs_handler, expr)
+                if op[0] == "RegLazy":
+                    cur = obj.__dict__.get(name)
+                    if w.pending is not None and cur is not None and id(cur) not in w.atom:
+                        w.register(cur)
+                    w.pending = None
             elif op[0] == "Unreg":
                 root.on_trait_change(legacy, case["legacy"], remove=True, deferred=deferred)
                 if st["reg2"] and not st["removed"]:
